@@ -64,7 +64,7 @@ impl Engine for ModelEngine {
     match self.flavour {
       Flavour::C04 => vec!["op.commit", "op.rollback", "op.reopen", "op.compact", "probe.old_reader_checked", "probe.long_documents", "probe.large_id_space_runs", "probe.partial_rollbacks"],
       Flavour::C14 => vec!["probe.compaction_merged", "probe.compaction_refused", "probe.queries_compared", "probe.long_documents", "probe.large_id_space_runs"],
-      Flavour::C28 => vec!["op.relocate", "probe.original_listing_checked", "probe.copy_opened_through_storage_of_original_root"],
+      Flavour::C28 => vec!["op.relocate", "probe.original_listing_checked", "probe.copy_opened_through_storage_of_original_root", "probe.original_handle_kept_open"],
     }
   }
 }
